@@ -7,11 +7,17 @@ IND = {"a": "x", "b": "y", "c": "z", "d": "q", "e": "w", "f": "v"}        # indi
 CHO = ["1", "2", "3", "4"]                                       # chord outputs
 
 
-def make_v1(T, singles, chords, plain=(), red=1, twin=None):
+def make_v1(T, singles, chords, plain=(), red=1, twin=None, layered=None, probe=None):
     """singles: chord keys with a single-key chord; chords: list of key-name tuples (>= 2 keys); plain: non-chord keys;
     twin: {physical key: chord key} - further physical keys that carry the chord key of another key (lsft and rsft both
     `(chord g s)`): P_C09 is told from the configuration text that either physical key stands for the chord key."""
     twin = twin or {}
+    # layered: {chord index: "multi" | "lmulti"}: the chord's action is (multi <key> (layer-while-held l1)) /
+    # (multi (layer-while-held l1) <key>)  (an output chord C-<key> is not used: it is released at the next action by
+    # design, NormalKeyFlags::CLEAR_ON_NEXT_ACTION, so the probe key itself would end it); probe: (plain key, its output on layer l1) - the key that shows the layer
+    layered = layered or {}
+    cact = lambda i: {None: CHO[i], "multi": "(multi %s (layer-while-held %s))" % (CHO[i], cfgdesc.lname(1)),
+                      "lmulti": "(multi (layer-while-held %s) %s)" % (cfgdesc.lname(1), CHO[i])}[layered.get(i)]
     ckeys = sorted(set(k for ch in chords for k in ch) | set(singles))
     keys = ckeys + sorted(twin) + list(plain)
     layer = {k: {"t": "chordv1", "group": "g", "key": k} for k in ckeys}
@@ -20,15 +26,16 @@ def make_v1(T, singles, chords, plain=(), red=1, twin=None):
     for k in plain:
         layer[k] = K(IND[k])
     entries = ["(%s) %s" % (k, IND[k]) for k in singles] + \
-              ["(%s) %s" % (" ".join(ch), CHO[i]) for i, ch in enumerate(chords)]
-    desc = {"keys": keys, "layers": [layer], "defcfg": {"rapid-event-delay": red},
+              ["(%s) %s" % (" ".join(ch), cact(i)) for i, ch in enumerate(chords)]
+    layers = [layer] + ([{probe[0]: K(probe[1])}] if probe else [])
+    desc = {"keys": keys, "layers": layers, "defcfg": {"rapid-event-delay": red},
             "extra": ["(defchords g %d %s)" % (T, " ".join(entries))]}
     params = {"ver": 1, "T": T,
-              "keys": [{"c": cfgdesc.code(k), "o": cfgdesc.code(IND[k]) if (k in singles or k in plain) else 0} for k in keys
-                       if k not in twin],
+              "keys": [{"c": cfgdesc.code(k), "o": cfgdesc.code(IND[k]) if (k in singles or k in plain) else 0,
+                       "ol": cfgdesc.code(probe[1]) if probe and k == probe[0] else 0} for k in keys if k not in twin],
               "part": [cfgdesc.code(k) for k in ckeys],
               "chords": [{"ks": sorted(cfgdesc.code(k) for k in ch), "o": cfgdesc.code(CHO[i]), "u": "", "T": T,
-                          "first": False, "dis": []} for i, ch in enumerate(chords)],
+                          "first": False, "dis": [], "ly": i in layered} for i, ch in enumerate(chords)],
               "same": [{"c": cfgdesc.code(k), "k": cfgdesc.code(ck)} for k, ck in sorted(twin.items())],
               "red": red, "minidle": 0, "lkey": 0, "slack": 2 * red + 10}
     return desc, params
@@ -58,11 +65,11 @@ def make_v2(chords, keys, red=1, minidle=5, lkey=None):
             "extra": ["(defchordsv2 %s)" % " ".join(ent)]}
     part = sorted(set(k for ch in chords for k in ch[0]))
     params = {"ver": 2, "T": 0,
-              "keys": [{"c": cfgdesc.code(k), "o": cfgdesc.code(ind(k))} for k in keys],
+              "keys": [{"c": cfgdesc.code(k), "o": cfgdesc.code(ind(k)), "ol": 0} for k in keys],
               "part": [cfgdesc.code(k) for k in part],
               "chords": [{"ks": sorted(cfgdesc.code(k) for k in ks),
                           "o": 0 if (uni and uni[0] != "+") else cfgdesc.code(cho(i)),
-                          "u": (uni or "").lstrip("+"), "T": T, "first": rel == "first", "dis": list(dis)}
+                          "u": (uni or "").lstrip("+"), "T": T, "first": rel == "first", "dis": list(dis), "ly": False}
                          for i, (ks, T, rel, dis, uni) in enumerate(chords)],
               "same": [],
               "red": red, "minidle": minidle, "lkey": cfgdesc.code(lkey) if lkey else 0, "slack": 2 * red + 10}
@@ -127,6 +134,9 @@ def family(tier):
                                       (("a", "b", "c"), T2, "all", [], None)], "abc")
     # two physical keys (a and e) carry the chord key a
     v1_twin = lambda T: make_v1(T, "ab", [("a", "b")], twin={"e": "a"})
+    # chords v1 whose action holds a layer next to a key ((multi <key> (layer-while-held l1))); d is a plain key whose
+    # meaning differs on that layer: the release rule (held until the last participant is released) covers the layer
+    v1_lay = lambda T: make_v1(T, "ab", [("a", "b")], plain="d", layered={0: "multi"}, probe=("d", "v"))
     v2_layer = lambda T: make_v2([(("a", "b"), T, "all", [1], None)], "ab", lkey="d")
     if tier == "quick":
         return [
@@ -141,6 +151,7 @@ def family(tier):
             ("v2_layer_T2", v2_layer(2), {"qmax": 2, "depth": 20}),
             ("v2_tmix_T24", v2_tmix(2, 4), {"qmax": 2, "depth": 18}),
             ("v1_twin_T2", v1_twin(2), {"qmax": 2, "depth": 18}),
+            ("v1_lay_T2", v1_lay(2), {"qmax": 2, "depth": 16}),
         ]
     return [
         ("v1_pair_T3", v1_pair(3), {"qmax": 3}),
@@ -162,6 +173,7 @@ def family(tier):
         ("v2_tmix_T13", v2_tmix(1, 3), {"qmax": 3, "depth": 20}),
         ("v1_twin_T2", v1_twin(2), {"qmax": 2}),
         ("v1_twin_T3", v1_twin(3), {"qmax": 3, "depth": 24}),
+        ("v1_lay_T2", v1_lay(2), {"qmax": 2, "depth": 26}),
         # overlapping chords with different release rules; an undefined superset (a b c)
         ("v2_ovl_T2", make_v2([(("a", "b"), 2, "all", [], None), (("b", "c"), 2, "first", [], None)], "abc"),
          {"qmax": 2, "depth": 22}),
@@ -207,6 +219,7 @@ CONSTANT Gaps = {%(gaps)s}
 CONSTANT Hold = {%(hold)s}
 CONSTANT RGaps = {%(rgaps)s}
 CONSTANT Other = {%(other)s}
+CONSTANT RProbe = {%(rprobe)s}
 CONSTANT MinSize = %(minsize)d
 CONSTANT AllRel = %(allrel)s
 CONSTANT Pre <- PreDef
@@ -218,7 +231,8 @@ CHECK_DEADLOCK FALSE
 """
 
 
-def enumerate_schedules(wd, name, keys, gaps, hold, rgaps, other=(), minsize=1, tail=40, allrel=True, pre=(), post=()):
+def enumerate_schedules(wd, name, keys, gaps, hold, rgaps, other=(), minsize=1, tail=40, allrel=True, pre=(), post=(),
+                        rprobe=()):
     """TLC enumerates Sched_C09 for the constants and prints every schedule; returns the scripts."""
     mod = "MC_Sched_" + name
     with open(os.path.join(wd, mod + ".tla"), "w") as f:
@@ -227,7 +241,8 @@ def enumerate_schedules(wd, name, keys, gaps, hold, rgaps, other=(), minsize=1, 
     with open(os.path.join(wd, mod + ".cfg"), "w") as f:
         f.write(SCHED_CFG % dict(keys=", ".join(map(str, keys)), gaps=", ".join(map(str, gaps)),
                                  hold=", ".join(map(str, hold)), rgaps=", ".join(map(str, rgaps)),
-                                 other=", ".join(map(str, other)), minsize=minsize, tail=tail,
+                                 other=", ".join(map(str, other)), rprobe=", ".join(map(str, rprobe)),
+                                 minsize=minsize, tail=tail,
                                  allrel="TRUE" if allrel else "FALSE"))
     r = run_tlc(wd, mod, workers=1, timeout=600, heap="2g")
     if r["rc"] != 0 or r["error"]:
@@ -279,6 +294,12 @@ def schedule_family(tier):
         F.append((nm, make_v2(tbl, "ab" + thirds),
                   dict(keys=[c("a"), c("b"), c(thirds[-1])], gaps=[0, T + 1] if tier == "quick" else g3, hold=[6],
                        rgaps=[0, 2], other=[c(thirds[0])])))
+    # chords v1 whose action is a multi of a key and a layer-while-held (either order): every press order, every
+    # release order, the probe key (its meaning differs on the layer) tapped at every position of the release phase
+    F.append(("s_v1_lay", make_v1(T, "abc", [("a", "b"), ("a", "b", "c")], plain="d", layered={0: "multi", 1: "lmulti"},
+                                  probe=("d", "v")),
+              dict(keys=[c("a"), c("b"), c("c")], gaps=[0, T + 1] if tier == "quick" else g3, hold=[6], rgaps=[0, 2],
+                   rprobe=[c("d")], minsize=2)))
     if tier != "quick":
         g4 = [0, T + 1]
         F += [
@@ -352,6 +373,8 @@ def run(tier, seed):
         log("[c09] %s: %d schedules enumerated by TLC" % (name, len(scripts)))
         sched_jobs.append({"cfg": cfgdesc.render_kbd(desc), "params": params, "tag": "s:" + name, "scripts": scripts})
     res.extra["schedules_enumerated_by_tlc"] = nsched
+    # the documented short spellings of the action keywords in these configurations (same monitor parameters)
+    sched_jobs += spelling_twins(sched_jobs)
     for label, jobs in (("witness", witness_jobs), ("sched", sched_jobs), ("random", jobs_random)):
         if not jobs:
             continue
